@@ -427,7 +427,7 @@ func (e *Environment) CreateOrSet(name string, val Object, create bool) Object {
 		old, ok := e.Get(name) // not ok
 		if ok {
 			log.Infof("Attempt to change constant %s from %v to %v", name, old, val)
-			if !Equals(old, val) {
+			if !Equals(Value(old), val) { // the existing binding may be seen through a reference (outer scope).
 				return Error{Value: fmt.Sprintf("attempt to change constant %s from %s to %s", name, old.Inspect(), val.Inspect())}
 			}
 		}
